@@ -147,9 +147,13 @@ impl Builtins {
                                 pos.clone(),
                             )
                         })?;
+                        // The file is being imported from here on. Anything it imports
+                        // must be able to see that to detect import cycles.
+                        let mut in_progress = import_stack.clone();
+                        in_progress.push(path.clone());
                         let mut vm =
                             VM::with_pointer(self.strict, op_pointer, base_path)
-                                .with_import_stack(import_stack.clone());
+                                .with_import_stack(in_progress);
                         // The one-output-per-file lock only guards a single evaluation
                         // of the imported file; it may have been built on its own before.
                         env.borrow_mut().reset_out_lock_for_path(&normalized);
